@@ -37,7 +37,7 @@ impl Property for C40 {
 
     fn runs(&self, tier: Tier) -> u64 {
         match tier {
-            Tier::Quick => 5 * 11 * 6,
+            Tier::Quick => 5 * 11 * 12,
             Tier::Thorough => 5 * 11 * 1200,
         }
     }
